@@ -66,12 +66,22 @@ func repoDir() string {
 	return "/repo"
 }
 
+// replayOnly: with --replay, the one obligation (name without path label) to report on
+var replayOnly string
+var replayMode bool
+
 func cmdCheck(args []string) {
 	if len(args) < 2 {
 		fmt.Fprintln(os.Stderr, "usage: gowp check <property> <quick|thorough>")
 		os.Exit(2)
 	}
 	id, tier := args[0], args[1]
+	replayFile := ""
+	for i := 2; i+1 < len(args); i++ {
+		if args[i] == "--replay" {
+			replayFile = args[i+1]
+		}
+	}
 	start := time.Now()
 	vd := verifDir()
 	var cfg PropConfig
@@ -92,6 +102,42 @@ func cmdCheck(args []string) {
 	if tier == "thorough" {
 		timeout = 60
 	}
+	if replayFile != "" {
+		// --replay <file>: re-check only what the replay file records (one
+		// obligation of one function, or one bounded stand-in) on the current tree
+		var rp map[string]any
+		data, err := os.ReadFile(replayFile)
+		if err != nil || json.Unmarshal(data, &rp) != nil {
+			fmt.Fprintln(os.Stderr, "cannot read replay file", replayFile)
+			os.Exit(2)
+		}
+		if b, ok := rp["bounded"].(string); ok {
+			var keep []Bounded
+			for _, x := range cfg.Bounded {
+				if x.Name == b {
+					x.Quick = true
+					keep = append(keep, x)
+				}
+			}
+			cfg.Bounded, cfg.Functions, cfg.LemmaPkgs, cfg.Static, cfg.MinObligations = keep, nil, nil, nil, 0
+		} else if o, ok := rp["obligation"].(string); ok {
+			var keep []PropFunc
+			for _, pf := range cfg.Functions {
+				if strings.HasPrefix(o, pf.Key+".") || strings.HasPrefix(o, pf.Key+"[") {
+					keep = append(keep, pf)
+				}
+			}
+			if strings.HasPrefix(o, "static.") {
+				cfg.Functions, cfg.Bounded, cfg.LemmaPkgs, cfg.MinObligations = nil, nil, nil, 0
+			} else {
+				cfg.Functions, cfg.Bounded, cfg.Static, cfg.MinObligations = keep, nil, nil, 0
+				replayOnly = stripPathLabel(o)
+			}
+		}
+		cfg.ID = id
+		replayMode = true
+		fmt.Printf("REPLAY %s\n", replayFile)
+	}
 	eng, err := LoadEngine(repoDir(), nil, extSpecs())
 	if err != nil {
 		fmt.Fprintln(os.Stderr, "ENGINE-ERROR loading /repo:", err)
@@ -99,6 +145,15 @@ func cmdCheck(args []string) {
 	}
 	eng.preRegister()
 	res := eng.runProperty(&cfg, tier, timeout, filepath.Join(vd, ".work", fmt.Sprintf("%s-%d", id, os.Getpid())))
+	if replayOnly != "" {
+		var keep []*Result
+		for _, r := range res.results {
+			if stripPathLabel(r.Obl.Name()) == replayOnly {
+				keep = append(keep, r)
+			}
+		}
+		res.results = keep
+	}
 	res.finish(eng, &cfg, tier, seed, start)
 }
 
@@ -526,7 +581,9 @@ func (pr *propResult) finish(eng *Engine, cfg *PropConfig, tier string, seed int
 		"wall_s": time.Since(start).Seconds(), "violations": violations,
 	}
 	os.MkdirAll(filepath.Join(vd, "evidence"), 0o755)
-	writeJSON(filepath.Join(vd, "evidence", id+".json"), ev)
+	if !replayMode {
+		writeJSON(filepath.Join(vd, "evidence", id+".json"), ev)
+	}
 	os.RemoveAll(pr.workDir)
 	for _, l := range violationLines {
 		fmt.Println(l)
